@@ -9,7 +9,7 @@ Decided clauses:
  D4 ownership pairing: every erase of an element is preceded by delete of that element, every delete followed by erase/clear
 """
 import itertools
-from .facts import kids, strip, walk, is_call, render, AnalysisBroken
+from .facts import local_inits, kids, strip, walk, is_call, render, AnalysisBroken
 from . import e1
 from .orderai import Interp, Obj, weak_orders, car, show, is_car
 
@@ -159,10 +159,29 @@ def _d2(chk, fb):
         cls = "bpp::%s<%s>" % (coll, T)
         cands = [f for f in fb.q(cls + "::" + coll) if f.rec.get("copyctor")] + fb.q(cls + "::operator=")
         chk.floor("D2", "copy functions of " + cls, len(cands), 2)
-        for f in cands:
+        work = list(cands)
+        seen_ = set()
+        while work:
+            f = work.pop(0)
+            if f.key in seen_:
+                continue
+            seen_.add(f.key)
             pbs = _push_backs(f)
             if not pbs:
-                chk.refuted("D2", f.key, "copy-stores-nothing", f.loc(), "copy function never inserts into ranges_")
+                # the copying may have been moved into a helper of the class that receives the source collection
+                src_ = f.params[0]["name"] if f.params else None
+                helpers = [t for c in f.calls() if c["callee"].get("inrepo") and c["callee"].get("cls") == cls and src_ and any(render(a) == src_ for a in f.args(c))
+                           for t in fb.targets(c) if t.body is not None and t.key not in seen_]
+                whole = [n for n in f.all_nodes() if n["k"] == "BinaryOperator" and n["op"] == "=" and render(kids(n)[0]) == "ranges_"] + \
+                        [c for c in f.calls() if c["callee"]["name"] in ("operator=", "assign", "swap") and "obj" in c and render(f.obj(c)) == "ranges_"] + \
+                        [i for i in f.rec.get("inits", []) if i.get("fname") == "ranges_" and i.get("written") and src_ and src_ in render(f.nodes.get(i["expr"]) if isinstance(i.get("expr"), int) else i.get("expr"))]
+                if helpers:
+                    work.extend(helpers)
+                    chk.proved("D2", f.key, "copy-stores", f.loc(), "copy delegated to %s (analysed in its place)" % ", ".join(h.name for h in helpers))
+                elif whole:
+                    chk.refuted("D2", f.key, "clone-stored", f.loc(), "copy takes over the source's pointer vector as a whole: both collections own (and will delete) the same ranges")
+                else:
+                    chk.unknown("D2", f.key, "copy-stores", f.loc(), "no insertion into ranges_ recognised in the copy function")
                 continue
             for n in pbs:
                 a = strip(f.args(n)[-1])
@@ -243,6 +262,17 @@ def _d3(chk, fb):
         if not erases:
             chk.refuted("D3", clean.key, "removes-empties", clean.loc(), "clean_() no longer removes empty ranges")
         for e in erases:
+            a0 = strip(clean.args(e)[0]) if clean.args(e) else None
+            if a0 is not None and is_call(a0) and a0["callee"]["name"] in ("remove_if",) and len(clean.args(a0)) == 3:
+                # erase-remove idiom: the predicate decides; it must be an emptiness test
+                pred = strip(clean.args(a0)[2])
+                ptxt = render(pred, local_inits(clean))
+                lam = [x for x in walk(pred)] + [x for d_ in clean.all_nodes() if d_["k"] == "DeclStmt" for dd in d_["decls"] if pred["k"] == "DeclRefExpr" and dd["id"] == pred["decl"]["id"] and dd.get("init") is not None for x in walk(dd["init"])]
+                if any(is_call(x) and x["callee"]["name"] == "isEmpty" for x in lam):
+                    chk.proved("D3", clean.key, "removes-empties", clean.loc(e), "erase(remove_if(.., predicate testing isEmpty()), end())")
+                else:
+                    chk.unknown("D3", clean.key, "removes-empties", clean.loc(e), "erase-remove with a predicate that could not be read")
+                continue
             ok, path = e1.guarded_by(cfg, cfg.stmt_block(e), lambda facts: any(is_call(nd) and nd["callee"]["name"] == "isEmpty" and tr for _, tr, nd in facts))
             # and the loop must visit every element: a non-erasing path increments the iterator
             if ok:
@@ -251,7 +281,8 @@ def _d3(chk, fb):
                 chk.refuted("D3", clean.key, "removes-empties", clean.loc(e), "erase in clean_() is not restricted to empty ranges")
         # every empty must be erased: the isEmpty-true edge leads to the erase
         loops = e1.natural_loops(cfg)
-        chk.floor("D3", "loops in clean_", len(loops), 1)
+        idioms = [e for e in erases if clean.args(e) and is_call(strip(clean.args(e)[0])) and strip(clean.args(e)[0])["callee"]["name"] == "remove_if"]
+        chk.floor("D3", "loops / erase-remove idioms in clean_", len(loops) + len(idioms), 1)
     # RangeSet: addRange filters empties; restrictTo erases empties after slicing
     for T in TYPES:
         cls = "bpp::RangeSet<%s>" % T
@@ -354,16 +385,29 @@ def _d4(chk, fb):
                 erases = [n for n in f.calls() if n["callee"]["name"] == "erase" and "obj" in n and render(f.obj(n)) == "ranges_"]
                 deletes = [n for n in walk(f.body) if n["k"] == "CXXDeleteExpr"]
                 clears = [n for n in f.calls() if n["callee"]["name"] == "clear" and "obj" in n and render(f.obj(n)) == "ranges_"]
+                sub_ = local_inits(f)
                 for e in erases:
                     n_sites += 1
                     b = cfg.stmt_block(e)
                     el = cfg.blocks[b]["el"]
                     ei = e1._elem_index(cfg, el, e)
-                    arg = render(f.args(e)[0])
+                    arg = render(f.args(e)[0], sub_)
+                    a0 = strip(f.args(e)[0])
+                    if is_call(a0) and a0["callee"]["name"] in ("remove_if", "remove", "unique") and f.args(a0):
+                        # erase-remove idiom: ownership is released by the predicate (a lambda deleting what it discards)
+                        pred = strip(f.args(a0)[-1])
+                        body = [x for x in walk(pred)]
+                        if pred["k"] == "DeclRefExpr" and pred["decl"]["id"] in sub_:
+                            body += [x for x in walk(sub_[pred["decl"]["id"]])]
+                        if any(x["k"] == "CXXDeleteExpr" for x in body):
+                            chk.proved("D4", f.key, "delete-before-erase", f.loc(e), "erase-remove whose predicate deletes the elements it discards")
+                        else:
+                            chk.unknown("D4", f.key, "delete-before-erase", f.loc(e), "erase-remove idiom: release of the discarded elements not visible")
+                        continue
                     match = None
                     for d in deletes:
                         if cfg.stmt_block(d) == b and e1._elem_index(cfg, el, d) < ei:
-                            op = render(kids(d)[0])
+                            op = render(kids(d)[0], sub_)
                             # delete *it ... erase(it)   |  delete ranges_[k] ... erase(begin()+k)
                             if op == "*" + arg or (op.startswith("ranges_[") and op[len("ranges_["):-1] in arg):
                                 match = d
@@ -374,6 +418,9 @@ def _d4(chk, fb):
                 for d in deletes:
                     n_sites += 1
                     b = cfg.stmt_block(d)
+                    if b is None or f.enclosing(d, ("LambdaExpr",)) is not None:
+                        chk.unknown("D4", f.key, "erase-after-delete", f.loc(d), "delete inside a lambda / outside the function's flow graph")
+                        continue
                     targets = e1.blocks_with(cfg, lambda n: is_call(n) and n["callee"]["name"] in ("erase", "clear") and "obj" in n and render(f.obj(n)) == "ranges_")
                     ok, path = e1.must_pass(cfg, targets, start=b)
                     if ok:
